@@ -462,7 +462,13 @@ fn eval_case(c: &Case, extra_in: &[Vec<f64>], rng_extra: u64, deep: bool) -> Vec
             Ok(Some((t2, _, _))) if t2.text == t.text => {}
             _ => fails.push(("deterministic".into(), "a second fit on the same data gives a different tree".into())),
         }
-        let kpow = 1 + (rng_extra % 9) as i32;
+        // 2^k for small k, and for |k| in 40..70 (data expressed in a tiny / huge unit: an absolute threshold such as
+        // `|x - prev| < epsilon` in the split search is invisible at ordinary magnitudes)
+        let kpow = match (rng_extra / 16) % 4 {
+            0 | 1 => 1 + (rng_extra % 9) as i32,
+            2 => -(40 + (rng_extra % 31) as i32),
+            _ => 40 + (rng_extra % 31) as i32,
+        };
         let f = (2.0f64).powi(kpow);
         let mut c2 = c.clone();
         c2.x = c.x.iter().map(|r| r.iter().map(|v| v * f).collect()).collect();
